@@ -26,7 +26,7 @@ def rand_groups(rng):
 
 def uri_gen(rng):
     schemes = ["fmprpc", "fmprpc+tls", "FMPRPC", "Fmprpc+TLS", "http", "fmprpc+tl", "fmp", "fmprpc-tls", "f", "fmprpc+tls2"]
-    hosts = ["h", "example.com", "a-b.c", "10.0.0.1", "", "A.b", "localhost", "x" * 20]
+    hosts = ["h", "example.com", "a-b.c", "10.0.0.1", "", "A.b", "localhost", "x" * 20, "[::1]", "[2001:db8::1]", "[::]", "[fe80::1%25eth0]"]
     ports = [":1", ":443", ":", "", ":65536", ":x", ":1:2", ":12a", "::", ":0"]
     paths = ["", "", "/", "/a/b", "/a_b.c", "/x-y/z.w", "?q", "#f", "/a?b"]
     s = rng.choice(schemes) + rng.choice(["://"] * 12 + [":/", ":", "//", ""]) + rng.choice(hosts) + rng.choice(ports) + rng.choice(paths)
